@@ -77,9 +77,10 @@ func newSandbox(root string) *sandbox {
 
 // spokfileText renders the shape. Every command has the form
 //
-//	printf T.i.start >> LOG && test ! -e FLAGS/fail.T.i && printf T.i.ok >> LOG
+//	printf T.i.start >> LOG && test ! -e FLAGS/kill.T.i || kill -9 $$ && test ! -e FLAGS/fail.T.i && printf T.i.ok >> LOG
 //
-// so T.i.ok is written iff that command exited 0.
+// so T.i.ok is written iff that command exited 0; the kill flag (only ever set for
+// runs of the binary) makes the command kill spok itself: the shell is in-process, $$ is spok.
 func (sb *sandbox) spokfileText(s hshape) string {
 	var b strings.Builder
 	for _, t := range s.Tasks {
@@ -95,8 +96,8 @@ func (sb *sandbox) spokfileText(s hshape) string {
 		}
 		fmt.Fprintf(&b, "task %s(%s) {\n", t.Name, strings.Join(deps, ", "))
 		for i := 0; i < t.NCmd; i++ {
-			fmt.Fprintf(&b, "    printf '%%s\\n' %s.%d.start >> %s && test ! -e %s/fail.%s.%d && printf '%%s\\n' %s.%d.ok >> %s\n",
-				t.Name, i, sb.Log, sb.Flags, t.Name, i, t.Name, i, sb.Log)
+			fmt.Fprintf(&b, "    printf '%%s\\n' %s.%d.start >> %s && test ! -e %s/kill.%s.%d || kill -9 $$ && test ! -e %s/fail.%s.%d && printf '%%s\\n' %s.%d.ok >> %s\n",
+				t.Name, i, sb.Log, sb.Flags, t.Name, i, sb.Flags, t.Name, i, t.Name, i, sb.Log)
 		}
 		b.WriteString("}\n\n")
 	}
